@@ -13,7 +13,7 @@ for p in props:
     checks.append({
         "property_id": p['id'],
         "quick_cmd": f"./bin/defracheck -repo /repo -property {p['id']} -tier quick",
-        "thorough_cmd": f"./bin/defracheck -repo /repo -property {p['id']} -tier thorough",
+        "thorough_cmd": f"python3 tools/thorough.py {p['id']}",
         "evidence_file": f"/verif/evidence/{p['id']}.json",
         "replay_cmd_template": "./bin/defracheck -repo /repo -replay {path}",
         "engine": "defracheck",
